@@ -24,9 +24,9 @@
  *              2 + WITH_PARENTS, 3 lyd_dup_single of each instance in turn, 4 the same with NO_LYDS; at top level the
  *              duplicates are made without parent and inserted with lyd_insert_sibling (lyds_merge). The duplicates get
  *              their identities in source order.
- *        g<o>  lyd_merge_tree / lyd_merge_siblings of the source into the parent, o = 1 with LYD_MERGE_DESTRUCT (oracle only)
+ *        g<o>  lyd_merge_tree / lyd_merge_siblings of the source into the parent, o = 1 with LYD_MERGE_DESTRUCT (Sorted.lyd_merge_list)
  *        s<i>  lyd_unlink_siblings at the instance at position i (lyds_split when it is not the leader); it and ALL
- *              following siblings become the chain (one chain at a time; oracle only, not in the Coq model)
+ *              following siblings become the chain (one chain at a time; Sorted.lyds_split)
  *        m     insert the chain again (lyd_insert_child / lyd_insert_sibling of its first node -> lyd_move_nodes -> lyds_merge)
  *   sib  <place> <ops>                  ALL children of one parent (place c: container k of module s2, t: top level of s2):
  *        leaves l1..l6, system-ordered leaf-list sl, user-ordered list ul and leaf-list uu, opaque nodes; schema order
